@@ -29,7 +29,7 @@ func TestVerifC06Network(t *testing.T) {
 	}
 	logrus.SetLevel(logrus.PanicLevel)
 	seed, _ := strconv.ParseInt(os.Getenv("VERIF_SEED"), 10, 64)
-	instances := 6
+	instances := 12
 	if os.Getenv("VERIF_TIER") == "thorough" {
 		instances = 40
 	}
